@@ -34,6 +34,7 @@ inline std::vector<int16_t> parse_picks(const char *s) { std::vector<int16_t> v;
 // cost of taking option `alt` at point p (0 for the default-style continuation)
 inline int alt_cost(const sched_point &p, int alt) {
   if (p.kind == 1) return alt == p.opts[0] ? 0 : 1;                 // explicit choice: deviation from default
+  if (alt >= 300) return 1;                                           // spurious wake-up of a condition waiter
   if (alt >= 100) return p.nthread_opts > 0 ? 1 : 0;                 // timeout fires although a thread could run
   if (p.curen && alt != p.cur) return 1;                             // preemption
   if (!p.curen && p.nthread_opts > 0 && alt != p.opts[0]) return 0;  // free choice among runnable threads at a blocking point
